@@ -150,7 +150,7 @@ type H struct {
 	arity  int
 	iter   int
 	ctx    string
-	broken bool // a FAIL occurred in the current section: abandon it
+	broken bool   // a FAIL occurred in the current section: abandon it
 	tag    string // statistics only
 	stats  map[string][2]int
 }
@@ -976,7 +976,7 @@ func runIteration(h *H, seed int64, n, it int) {
 	section(h, "registration", func() { registrationSection(h, rng, n) })
 	if it == 0 {
 		section(h, "K2", func() { k2Scenario(h, rng, n) })
-		section(h, "K3", func() { k3Scenario(h, rng, n) })
+		section(h, "K4", func() { k4Scenario(h, rng, n) })
 	}
 }
 
@@ -1022,5 +1022,1561 @@ func main() {
 		for _, k := range keys {
 			fmt.Fprintf(os.Stderr, "%-40s ok=%d panic=%d\n", k, h.stats[k][0], h.stats[k][1])
 		}
+	}
+}
+
+// ---------------------------------------------------------------------------
+// (from sec_map.go)
+
+// randVals returns distinct non-zero values whose last two digits name the type (position check).
+func randVals(rng *rand.Rand, ts []int) []int64 {
+	v := make([]int64, len(ts))
+	for k, t := range ts {
+		v[k] = int64(rng.Intn(9000)+1000)*1000000 + int64(k)*100 + int64(t)
+	}
+	return v
+}
+
+func compsFor(p *pair, ts []int, vals []int64) []ecs.Component {
+	c := make([]ecs.Component, len(ts))
+	for k, t := range ts {
+		c[k] = ecs.Component{ID: p.ids[t], Comp: typeTable[t].mk(vals[k])}
+	}
+	return c
+}
+
+// mapSection: generic.MapN against World/Builder/Batch/Relations calls.
+func mapSection(h *H, rng *rand.Rand, n, variant int) {
+	params := paramTypes(n, variant)
+	p := newPair(h, rng, params)
+	if p.stop() {
+		return
+	}
+	wa, wb := p.wa, p.wb
+
+	// relation argument of NewMapN
+	relArg := -1
+	r := rng.Intn(10)
+	if variant == 1 {
+		switch r = rng.Intn(20); {
+		case r < 16:
+			relArg = tRel
+		case r < 17:
+		case r < 19:
+			relArg = tRel2
+		default:
+			relArg = tX0
+		}
+	} else {
+		switch r = rng.Intn(20); {
+		case r < 8:
+		case r < 17:
+			relArg = tRel
+		case r < 18:
+			relArg = tRel2
+		default:
+			relArg = tX0
+		}
+	}
+	hasRel := relArg >= 0
+	var rid ecs.ID
+	var relc []generic.Comp
+	relName := "none"
+	if hasRel {
+		rid = p.ids[relArg]
+		relc = []generic.Comp{tSingle[relArg]()}
+		relName = typeTable[relArg].name
+	}
+	h.ctx = fmt.Sprintf("%s rel=%s", h.ctx, relName)
+
+	var ma *mapAd
+	rc := try(func() { ma = makeMapAd(n, variant, wa, relc...) })
+	if !h.ok(!rc.panicked, fmt.Sprintf("NewMap%d", n), "constructor panicked: %s", rc.msg) {
+		return
+	}
+	for k := range params {
+		h.ok(ma.ids[k] == p.ids[params[k]], fmt.Sprintf("NewMap%d", n), "ComponentID of type parameter %d differs from TypeID", k)
+	}
+	ids := func() []ecs.ID { return p.idsOf(params) }
+	paramHasRel := contains(params, tRel)
+	// other relation type that would conflict when the params are added
+	noConflict := func(r *rec) bool { return !paramHasRel || !r.has[tRel2] }
+
+	ops := []string{"New", "NewWith", "NewBatch", "NewBatchQ", "Get", "GetUnchecked", "Add", "Assign",
+		"Remove", "RemoveEntities", "AddBatch", "AddBatchQ", "RemoveBatch", "RemoveBatchQ"}
+	rng.Shuffle(len(ops), func(i, j int) { ops[i], ops[j] = ops[j], ops[i] })
+	for i := 0; i < 10; i++ {
+		ops = append(ops, ops[rng.Intn(14)])
+	}
+
+	for _, op := range ops {
+		p.background(rng.Intn(3))
+		if p.stop() {
+			return
+		}
+		m := fmt.Sprintf("Map%d.%s", n, op)
+		relInParams := hasRel && contains(params, relArg)
+		useful := relInParams
+		if op[0] == 'R' {
+			useful = hasRel && !relInParams
+		} else if op[0] == 'A' && op != "Assign" {
+			useful = hasRel // adding the relation itself, or adding to entities that have it
+		}
+		tg := p.optTarget(hasRel, useful)
+		h.tag = ""
+		if len(tg) > 0 {
+			h.tag = "+target"
+		}
+		needRel := func() {
+			if len(tg) > 0 && !hasRel {
+				switch op {
+				case "New", "NewBatch", "NewBatchQ":
+					panic(modelPanic("map has no relation defined, can't set a target"))
+				case "NewWith":
+					panic(modelPanic("map has no relation defined"))
+				}
+				panic(modelPanic(fmt.Sprintf("can't set target entity: Map%d has no relation", n)))
+			}
+		}
+		switch op {
+		case "New":
+			var ea, eb ecs.Entity
+			ra := try(func() { ea = ma.New(tg...) })
+			rb := try(func() {
+				needRel()
+				if len(tg) == 0 {
+					eb = wb.NewEntity(ids()...)
+				} else {
+					eb = ecs.NewBuilder(wb, ids()...).WithRelation(rid).New(tg[0])
+				}
+			})
+			if h.samePanic(m, ra, rb) {
+				h.ok(ea == eb, m, "entity differs: generic %s, id-based %s", entStr(ea), entStr(eb))
+			}
+		case "NewWith":
+			vals := randVals(rng, params)
+			var ea, eb ecs.Entity
+			ra := try(func() { ea = ma.NewWith(vals, tg...) })
+			rb := try(func() {
+				needRel()
+				if len(tg) == 0 {
+					eb = wb.NewEntityWith(compsFor(p, params, vals)...)
+				} else {
+					eb = ecs.NewBuilderWith(wb, compsFor(p, params, vals)...).WithRelation(rid).New(tg[0])
+				}
+			})
+			if h.samePanic(m, ra, rb) && h.ok(ea == eb, m, "entity differs: generic %s, id-based %s", entStr(ea), entStr(eb)) {
+				for k := range params {
+					ptr := wa.Get(ea, p.ids[params[k]])
+					h.ok(ptr != nil && *(*int64)(ptr) == vals[k], m, "value of argument %d not stored in component %s", k, typeTable[params[k]].name)
+				}
+			}
+		case "NewBatch":
+			c := 1 + rng.Intn(4)
+			if rng.Intn(20) == 0 {
+				c = 0
+			}
+			ra := try(func() { ma.NewBatch(c, tg...) })
+			rb := try(func() {
+				needRel()
+				if len(tg) == 0 {
+					ecs.NewBuilder(wb, ids()...).NewBatch(c)
+				} else {
+					ecs.NewBuilder(wb, ids()...).WithRelation(rid).NewBatch(c, tg[0])
+				}
+			})
+			h.samePanic(m, ra, rb)
+		case "NewBatchQ":
+			c := 1 + rng.Intn(4)
+			if rng.Intn(20) == 0 {
+				c = 0
+			}
+			var qa *qAd
+			var qb ecs.Query
+			ra := try(func() { qa = ma.NewBatchQ(c, tg...) })
+			rb := try(func() {
+				needRel()
+				if len(tg) == 0 {
+					qb = ecs.NewBuilder(wb, ids()...).NewBatchQ(c)
+				} else {
+					qb = ecs.NewBuilder(wb, ids()...).WithRelation(rid).NewBatchQ(c, tg[0])
+				}
+			})
+			p.finishQueries(m, ra, rb, qa, &qb, ma.ids, params, hasRel, rid)
+		case "Get", "GetUnchecked":
+			e := p.pickEntityArg()
+			if rng.Intn(3) > 0 {
+				if x, ok := p.pickWhere(func(r *rec) bool { return hasAll(r, params) }); ok {
+					e = x
+				}
+			}
+			if rng.Intn(25) == 0 {
+				e = ecs.Entity{}
+			}
+			var pa, pb, exp []unsafe.Pointer
+			ra := try(func() {
+				if op == "Get" {
+					pa = ma.Get(e)
+				} else {
+					pa = ma.GetUnchecked(e)
+				}
+			})
+			rb := try(func() {
+				for k := range params {
+					if op == "Get" {
+						pb = append(pb, wb.Get(e, p.ids[params[k]]))
+						exp = append(exp, wa.Get(e, ma.ids[k]))
+					} else {
+						pb = append(pb, wb.GetUnchecked(e, p.ids[params[k]]))
+						exp = append(exp, wa.GetUnchecked(e, ma.ids[k]))
+					}
+				}
+			})
+			if h.samePanic(m, ra, rb) && h.ok(len(pa) == len(params), m, "returned %d values", len(pa)) {
+				for k := range params {
+					nm := typeTable[params[k]].name
+					h.ok(pa[k] == exp[k], m, "position %d (%s): pointer differs from World.Get(entity, id of type parameter %d)", k, nm, k)
+					if h.ok((pa[k] == nil) == (pb[k] == nil), m, "position %d (%s): generic nil=%v, id-based nil=%v", k, nm, pa[k] == nil, pb[k] == nil) && pb[k] != nil {
+						va, vb := *(*int64)(pa[k]), *(*int64)(pb[k])
+						h.ok(va == vb, m, "position %d (%s): value %d, id-based %d", k, nm, va, vb)
+						h.ok(va%100 == int64(params[k]), m, "position %d: value %d does not belong to type %s", k, va, nm)
+					}
+				}
+			}
+			continue // read-only: no sync needed
+		case "Add", "Assign":
+			e := p.pickEntityArg()
+			if rng.Intn(5) > 0 {
+				needHave := len(tg) > 0 && hasRel && !relInParams && typeTable[relArg].isRel && !(paramHasRel)
+				comp := []int{tX0 + rng.Intn(3)}
+				if needHave {
+					comp = append(comp, relArg)
+				}
+				e = p.pickOrCreate(func(r *rec) bool {
+					return hasNone(r, params) && noConflict(r) && (!needHave || r.has[relArg])
+				}, comp)
+			}
+			if op == "Add" {
+				ra := try(func() { ma.Add(e, tg...) })
+				rb := try(func() {
+					needRel()
+					if len(tg) == 0 {
+						wb.Add(e, ids()...)
+					} else {
+						wb.Relations().Exchange(e, ids(), nil, rid, tg[0])
+					}
+				})
+				h.samePanic(m, ra, rb)
+			} else {
+				vals := randVals(rng, params)
+				ra := try(func() { ma.Assign(e, vals) })
+				rb := try(func() { wb.Assign(e, compsFor(p, params, vals)...) })
+				if h.samePanic(m, ra, rb) {
+					for k := range params {
+						ptr := wa.Get(e, p.ids[params[k]])
+						h.ok(ptr != nil && *(*int64)(ptr) == vals[k], m, "value of argument %d not stored in component %s", k, typeTable[params[k]].name)
+					}
+				}
+			}
+		case "Remove":
+			e := p.pickEntityArg()
+			if rng.Intn(5) > 0 {
+				comp := append([]int{}, params...)
+				if len(tg) > 0 && hasRel && !relInParams && typeTable[relArg].isRel && !paramHasRel {
+					comp = append(comp, relArg)
+				}
+				e = p.pickOrCreate(func(r *rec) bool {
+					return hasAll(r, params) && (len(tg) == 0 || !hasRel || relInParams || r.has[relArg])
+				}, comp)
+			}
+			ra := try(func() { ma.Remove(e, tg...) })
+			rb := try(func() {
+				needRel()
+				if len(tg) == 0 {
+					wb.Remove(e, ids()...)
+				} else {
+					wb.Relations().Exchange(e, nil, ids(), rid, tg[0])
+				}
+			})
+			h.samePanic(m, ra, rb)
+		case "RemoveEntities":
+			excl := rng.Intn(2) == 0
+			var ca, cb int
+			ra := try(func() { ca = ma.RemoveEntities(excl) })
+			rb := try(func() {
+				mask := ecs.All(ids()...)
+				if excl {
+					f := mask.Exclusive()
+					cb = wb.Batch().RemoveEntities(&f)
+				} else {
+					cb = wb.Batch().RemoveEntities(mask)
+				}
+			})
+			if h.samePanic(m, ra, rb) {
+				h.ok(ca == cb, m, "count differs: generic %d, id-based %d", ca, cb)
+			}
+		case "AddBatch", "AddBatchQ", "RemoveBatch", "RemoveBatchQ":
+			add := op[0] == 'A'
+			var incl, excl []int
+			if add {
+				excl = append(excl, params...)
+				if paramHasRel {
+					excl = append(excl, tRel2)
+				}
+				if rng.Intn(2) == 0 {
+					incl = append(incl, tX0+rng.Intn(3))
+				}
+				if len(tg) > 0 && hasRel && !contains(params, relArg) && rng.Intn(4) > 0 {
+					incl = append(incl, relArg)
+				}
+			} else {
+				incl = append(incl, params...)
+				if hasRel && typeTable[relArg].isRel && !paramHasRel && (len(tg) > 0 || rng.Intn(2) == 0) && rng.Intn(4) > 0 {
+					incl = append(incl, relArg)
+				}
+				if rng.Intn(3) == 0 {
+					excl = append(excl, tX0+rng.Intn(3))
+				}
+			}
+			if rng.Intn(12) == 0 { // arbitrary filter: panics expected on both sides
+				incl, excl = nil, nil
+			}
+			kind := rng.Intn(4)
+			fa, fb, cleanup := p.mkFilter(kind, incl, excl, p.pickUsedTarget())
+			switch op {
+			case "AddBatch":
+				var ca, cb int
+				ra := try(func() { ca = ma.AddBatch(fa, tg...) })
+				rb := try(func() {
+					needRel()
+					if len(tg) == 0 {
+						cb = wb.Batch().Add(fb, ids()...)
+					} else {
+						cb = wb.Relations().ExchangeBatch(fb, ids(), nil, rid, tg[0])
+					}
+				})
+				if h.samePanic(m, ra, rb) {
+					h.ok(ca == cb, m, "count differs: generic %d, id-based %d", ca, cb)
+				}
+			case "RemoveBatch":
+				var ca, cb int
+				ra := try(func() { ca = ma.RemoveBatch(fa, tg...) })
+				rb := try(func() {
+					needRel()
+					if len(tg) == 0 {
+						cb = wb.Batch().Remove(fb, ids()...)
+					} else {
+						cb = wb.Relations().ExchangeBatch(fb, nil, ids(), rid, tg[0])
+					}
+				})
+				if h.samePanic(m, ra, rb) {
+					h.ok(ca == cb, m, "count differs: generic %d, id-based %d", ca, cb)
+				}
+			case "AddBatchQ":
+				var qa *qAd
+				var qb ecs.Query
+				ra := try(func() { qa = ma.AddBatchQ(fa, tg...) })
+				rb := try(func() {
+					needRel()
+					if len(tg) == 0 {
+						qb = wb.Batch().AddQ(fb, ids()...)
+					} else {
+						qb = wb.Relations().ExchangeBatchQ(fb, ids(), nil, rid, tg[0])
+					}
+				})
+				p.finishQueries(m, ra, rb, qa, &qb, ma.ids, params, hasRel, rid)
+			case "RemoveBatchQ":
+				var qa *qAd
+				var qb ecs.Query
+				ra := try(func() { qa = ma.RemoveBatchQ(fa, tg...) })
+				rb := try(func() {
+					needRel()
+					if len(tg) == 0 {
+						qb = wb.Batch().RemoveQ(fb, ids()...)
+					} else {
+						qb = wb.Relations().ExchangeBatchQ(fb, nil, ids(), rid, tg[0])
+					}
+				})
+				p.finishQueries(m, ra, rb, qa, &qb, nil, nil, hasRel, rid)
+			}
+			cleanup()
+		}
+		p.sync(m)
+		if p.stop() {
+			return
+		}
+	}
+}
+
+// finishQueries compares two freshly created batch queries (or closes the one that exists).
+func (p *pair) finishQueries(m string, ra, rb res, qa *qAd, qb *ecs.Query, posIDs []ecs.ID, posTypes []int, hasRel bool, rid ecs.ID) {
+	if p.h.samePanic(m, ra, rb) {
+		p.cmpQueries(m, qa, qb, posIDs, posTypes, hasRel, rid, modeFull)
+		return
+	}
+	if !ra.panicked && qa != nil {
+		closeQ(qa.Q)
+	}
+	if !rb.panicked {
+		closeQ(qb)
+	}
+}
+
+// ---------------------------------------------------------------------------
+// (from sec_filter.go)
+
+// fmodel is the hand-written model of a generic filter's configuration.
+type fmodel struct {
+	params     []int
+	with       []int
+	without    []int
+	optional   []int
+	exclusive  bool
+	hasRelType bool
+	relType    int
+	hasFixed   bool
+	fixed      ecs.Entity
+	registered bool
+	cfB        ecs.CachedFilter // registration in world B
+}
+
+// include returns the required components: (type parameters + With) minus Optional.
+func (m *fmodel) include() [nTypes]bool {
+	var s [nTypes]bool
+	for _, t := range m.params {
+		s[t] = true
+	}
+	for _, t := range m.with {
+		s[t] = true
+	}
+	for _, t := range m.optional {
+		s[t] = false
+	}
+	return s
+}
+
+// compilePanics: the relation component must be required by the filter and be a relation type.
+func (m *fmodel) compilePanics() bool {
+	if !m.hasRelType {
+		return false
+	}
+	inc := m.include()
+	return !inc[m.relType] || !typeTable[m.relType].isRel
+}
+
+// compileMessage is the message of the panic predicted by compilePanics.
+func (m *fmodel) compileMessage() string {
+	inc := m.include()
+	if !inc[m.relType] {
+		return fmt.Sprintf("relation component %v not in filter", typeTable[m.relType].rt)
+	}
+	return fmt.Sprintf("component type %v is not a relation", typeTable[m.relType].rt)
+}
+
+// coreFilter builds the equivalent core filter from the current configuration.
+func (m *fmodel) coreFilter(p *pair, qt []ecs.Entity) ecs.Filter {
+	inc := m.include()
+	var incl ecs.Mask
+	for t := 0; t < nTypes; t++ {
+		if inc[t] {
+			incl.Set(p.ids[t], true)
+		}
+	}
+	mf := &ecs.MaskFilter{Include: incl}
+	if m.exclusive {
+		*mf = incl.Exclusive()
+	} else {
+		mf.Exclude = ecs.All(p.idsOf(m.without)...)
+	}
+	if m.hasRelType && m.hasFixed {
+		rf := ecs.NewRelationFilter(mf, m.fixed)
+		return &rf
+	}
+	if len(qt) > 0 {
+		rf := ecs.NewRelationFilter(mf, qt[0])
+		return &rf
+	}
+	return mf
+}
+
+// expected computes the matching entities by brute force from the last dump.
+func (m *fmodel) expected(p *pair, qt []ecs.Entity) int {
+	inc := m.include()
+	cnt := 0
+	for i := range p.recs {
+		r := &p.recs[i]
+		ok := true
+		for t := 0; t < nTypes && ok; t++ {
+			if inc[t] && !r.has[t] {
+				ok = false
+			}
+			if m.exclusive && !inc[t] && r.has[t] {
+				ok = false
+			}
+		}
+		if !m.exclusive {
+			for _, t := range m.without {
+				if r.has[t] {
+					ok = false
+				}
+			}
+		}
+		if ok && m.hasRelType && m.hasFixed {
+			ok = !r.hasRel || r.tgt == m.fixed
+		} else if ok && len(qt) > 0 {
+			ok = !r.hasRel || r.tgt == qt[0]
+		}
+		if ok {
+			cnt++
+		}
+	}
+	return cnt
+}
+
+func (m *fmodel) String() string {
+	s := fmt.Sprintf("with=[%s] without=[%s] optional=[%s] exclusive=%v", namesOf(m.with), namesOf(m.without), namesOf(m.optional), m.exclusive)
+	if m.hasRelType {
+		s += " relation=" + typeTable[m.relType].name
+		if m.hasFixed {
+			s += " fixed=" + entStr(m.fixed)
+		}
+	}
+	if m.registered {
+		s += " registered"
+	}
+	return s
+}
+
+func pickSome(rng *rand.Rand, pool []int, max int) []int {
+	if len(pool) == 0 {
+		return nil
+	}
+	k := 1 + rng.Intn(max)
+	var out []int
+	for i := 0; i < k; i++ {
+		t := pool[rng.Intn(len(pool))]
+		if !contains(out, t) {
+			out = append(out, t)
+		}
+	}
+	return out
+}
+
+// filterSection: generic.FilterN/QueryN against hand-built core filters.
+func filterSection(h *H, rng *rand.Rand, n, variant int) {
+	params := paramTypes(n, variant)
+	focus := append([]int{}, params...)
+	if !contains(focus, tRel) && rng.Intn(2) == 0 {
+		focus = append(focus, tRel)
+	}
+	p := newPair(h, rng, focus)
+	if p.stop() {
+		return
+	}
+	wa, wb := p.wa, p.wb
+	var fa *filtAd
+	rc := try(func() { fa = makeFiltAd(n, variant, wa) })
+	if !h.ok(!rc.panicked, fmt.Sprintf("NewFilter%d", n), "constructor panicked: %s", rc.msg) {
+		return
+	}
+	for k := range params {
+		h.ok(fa.ids[k] == p.ids[params[k]], fmt.Sprintf("NewFilter%d", n), "ComponentID of type parameter %d differs from TypeID", k)
+	}
+	m := &fmodel{params: params}
+	var others []int
+	for t := 0; t < nTypes; t++ {
+		if !contains(params, t) {
+			others = append(others, t)
+		}
+	}
+	name := func(s string) string { return fmt.Sprintf("Filter%d.%s", n, s) }
+
+	// builder applies one random builder call to the generic filter and the model.
+	builder := func() {
+		ops := []string{"With", "With", "Without", "Without", "Optional", "Optional", "Exclusive", "WithRelation", "WithRelation"}
+		op := ops[rng.Intn(len(ops))]
+		if op == "Optional" && fa.Optional == nil {
+			op = "With"
+		}
+		if (op == "Exclusive" || op == "Without") && rng.Intn(4) == 0 {
+			op = "With"
+		}
+		forceRel := false
+		if !m.registered && (m.compilePanics() || !m.hasRelType) && rng.Intn(10) < 3 {
+			// steer towards a valid relation configuration
+			forceRel = true
+			if m.include()[tRel] {
+				op = "WithRelation"
+			} else {
+				op = "With"
+			}
+		}
+		mname := name(op)
+		switch op {
+		case "With":
+			ts := pickSome(rng, others, 2)
+			if !m.include()[tRel] && (forceRel || rng.Intn(10) < 3) {
+				ts = []int{tRel}
+			}
+			if rng.Intn(10) == 0 && len(params) > 0 {
+				ts = append(ts, params[rng.Intn(len(params))])
+			}
+			ra := try(func() { fa.With(compsOf(ts)...) })
+			rb := try(func() {
+				if m.registered {
+					panic(modelPanic("can't modify a registered filter"))
+				}
+				m.with = append(m.with, ts...)
+			})
+			h.samePanic(mname, ra, rb)
+		case "Without":
+			var pool []int
+			inc := m.include()
+			for _, t := range others {
+				if !inc[t] {
+					pool = append(pool, t)
+				}
+			}
+			if rng.Intn(8) == 0 || len(pool) == 0 {
+				pool = others
+			}
+			ts := pickSome(rng, pool, 2)
+			ra := try(func() { fa.Without(compsOf(ts)...) })
+			rb := try(func() {
+				if m.registered {
+					panic(modelPanic("can't modify a registered filter"))
+				}
+				if m.exclusive {
+					panic(modelPanic("filter is already exclusive"))
+				}
+				m.without = append(m.without, ts...)
+			})
+			h.samePanic(mname, ra, rb)
+		case "Optional":
+			var ts []int
+			switch r := rng.Intn(10); {
+			case r < 7 && len(params) > 0:
+				ts = pickSome(rng, params, 2)
+			case r < 9 && len(m.with) > 0:
+				ts = pickSome(rng, m.with, 1)
+			default:
+				ts = pickSome(rng, others, 1)
+			}
+			ra := try(func() { fa.Optional(compsOf(ts)...) })
+			rb := try(func() {
+				if m.registered {
+					panic(modelPanic("can't modify a registered filter"))
+				}
+				m.optional = append(m.optional, ts...)
+			})
+			h.samePanic(mname, ra, rb)
+		case "Exclusive":
+			ra := try(func() { fa.Exclusive() })
+			rb := try(func() {
+				if m.registered {
+					panic(modelPanic("can't modify a registered filter"))
+				}
+				if len(m.without) > 0 {
+					panic(modelPanic("filter already excludes some components"))
+				}
+				m.exclusive = true
+			})
+			h.samePanic(mname, ra, rb)
+		case "WithRelation":
+			rt := tRel
+			r := rng.Intn(20)
+			if forceRel {
+				r = 0
+			}
+			switch {
+			case r < 16:
+			case r < 18:
+				rt = tRel2
+			case r < 19:
+				rt = tX0
+			default:
+				if len(params) > 0 {
+					rt = params[0]
+				} else {
+					rt = tX0 + 1
+				}
+			}
+			var tg []ecs.Entity
+			if rng.Intn(3) == 0 {
+				tg = []ecs.Entity{p.pickUsedTarget()}
+			}
+			ra := try(func() { fa.WithRelation(tSingle[rt](), tg...) })
+			rb := try(func() {
+				if m.registered {
+					panic(modelPanic("can't modify a registered filter"))
+				}
+				m.hasRelType, m.relType = true, rt
+				if len(tg) > 0 {
+					m.hasFixed, m.fixed = true, tg[0]
+				}
+			})
+			h.samePanic(mname, ra, rb)
+		}
+	}
+
+	query := func() {
+		var qt []ecs.Entity
+		if m.hasRelType {
+			r := rng.Intn(100)
+			if !m.hasFixed && !m.registered {
+				if r < 60 {
+					qt = []ecs.Entity{p.pickUsedTarget()}
+				}
+			} else if r < 15 {
+				qt = []ecs.Entity{p.pickUsedTarget()} // documented-illegal: expect a panic
+			}
+		}
+		// witnesses: make sure some entities match the current configuration
+		if !m.compilePanics() && rng.Intn(10) < 7 {
+			inc := m.include()
+			for i := 1 + rng.Intn(2); i > 0; i-- {
+				var comp []int
+				rels := 0
+				for t := 0; t < nTypes; t++ {
+					take := inc[t]
+					if !take && !m.exclusive && !contains(m.without, t) {
+						if contains(m.params, t) {
+							take = rng.Intn(2) == 0 // optional parameter: present or absent
+						} else if !typeTable[t].isRel {
+							take = rng.Intn(6) == 0
+						}
+					}
+					if take {
+						comp = append(comp, t)
+						if typeTable[t].isRel {
+							rels++
+						}
+					}
+				}
+				if rels > 1 {
+					break
+				}
+				tg := ecs.Entity{}
+				want := ecs.Entity{}
+				if m.hasRelType && m.hasFixed {
+					want = m.fixed
+				} else if len(qt) > 0 {
+					want = qt[0]
+				} else if x, ok := p.pickAlive(); ok {
+					want = x
+				}
+				for j := range p.recs {
+					if p.recs[j].e == want {
+						tg = want // alive
+					}
+				}
+				p.createT(comp, tg)
+			}
+		}
+		useFilter := rng.Intn(5) == 0
+		mname := name("Query")
+		if useFilter {
+			mname = name("Filter")
+		}
+		var qa *qAd
+		var qb ecs.Query
+		ra := try(func() {
+			if useFilter {
+				f := fa.Filter(wa, qt...)
+				q := wa.Query(f)
+				qa = &qAd{Q: &q}
+			} else {
+				qa = fa.Query(wa, qt...)
+			}
+		})
+		rb := try(func() {
+			if m.compilePanics() {
+				panic(modelPanic(m.compileMessage()))
+			}
+			if len(qt) > 0 && m.registered {
+				panic(modelPanic("can't change relation target on a cached query"))
+			}
+			if len(qt) > 0 && m.hasFixed {
+				panic(modelPanic("can't change relation target on a query with fixed target"))
+			}
+			if m.registered {
+				qb = wb.Query(&m.cfB)
+			} else {
+				qb = wb.Query(m.coreFilter(p, qt))
+			}
+		})
+		if !h.samePanic(mname, ra, rb) {
+			if !ra.panicked && qa != nil {
+				closeQ(qa.Q)
+			}
+			if !rb.panicked {
+				closeQ(&qb)
+			}
+			return
+		}
+		exp := m.expected(p, qt)
+		cb := qb.Count()
+		h.ok(cb == exp, mname, "core filter count %d differs from brute-force evaluation %d of configuration {%s}", cb, exp, m.String())
+		mode := modeFull
+		if r := rng.Intn(10); r == 0 {
+			mode = modeCount
+		} else if r == 1 {
+			mode = modePartial
+		}
+		var rid ecs.ID
+		if m.hasRelType {
+			rid = p.ids[m.relType]
+		}
+		before := h.fails
+		vis := p.cmpQueries(mname, qa, &qb, fa.ids, params, m.hasRelType, rid, mode)
+		if h.stats != nil {
+			key := name("visited/queries")
+			if m.hasRelType {
+				key = name("visited/queries (relation)")
+			}
+			st := h.stats[key]
+			st[0] += len(vis)
+			st[1]++
+			h.stats[key] = st
+			if len(m.optional) > 0 {
+				st := h.stats[name("visited/queries (optional)")]
+				st[0] += len(vis)
+				st[1]++
+				h.stats[name("visited/queries (optional)")] = st
+			}
+		}
+		if h.fails != before {
+			fmt.Fprintf(h.out, "  (configuration at that query: {%s})\n", m.String())
+		}
+	}
+
+	register := func() {
+		if m.registered || rng.Intn(3) == 0 {
+			mname := name("Unregister")
+			ra := try(func() { fa.Unregister(wa) })
+			rb := try(func() {
+				if !m.registered {
+					panic(modelPanic("can't unregister a filter that is not cached"))
+				}
+				wb.Cache().Unregister(&m.cfB)
+				m.registered = false
+			})
+			h.samePanic(mname, ra, rb)
+			if rng.Intn(3) > 0 {
+				return
+			}
+		}
+		mname := name("Register")
+		ra := try(func() { fa.Register(wa) })
+		rb := try(func() {
+			if m.compilePanics() {
+				panic(modelPanic(m.compileMessage()))
+			}
+			if m.registered {
+				wb.Cache().Register(&m.cfB) // panics: already registered
+			}
+			m.cfB = wb.Cache().Register(m.coreFilter(p, nil))
+			m.registered = true
+		})
+		h.samePanic(mname, ra, rb)
+	}
+
+	// builder calls before the first query (sometimes none at all)
+	for i := rng.Intn(4); i > 0; i-- {
+		builder()
+		if p.stop() {
+			return
+		}
+	}
+	steps := 14 + rng.Intn(8)
+	for i := 0; i < steps; i++ {
+		if rng.Intn(3) == 0 {
+			p.background(1 + rng.Intn(2))
+		}
+		if p.stop() {
+			return
+		}
+		switch r := rng.Intn(100); {
+		case r < 40:
+			query()
+		case r < 80:
+			builder()
+			if rng.Intn(5) > 0 && !p.stop() {
+				query() // a query immediately after a builder call: must reflect the new configuration
+			}
+		case r < 90:
+			register()
+			if !p.stop() {
+				query()
+			}
+		default:
+			// register twice / builder on registered filter
+			register()
+			if !p.stop() {
+				builder()
+			}
+		}
+		p.sync(name("step"))
+		if p.stop() {
+			return
+		}
+	}
+	if m.registered {
+		try(func() { fa.Unregister(wa) })
+		try(func() { wb.Cache().Unregister(&m.cfB) })
+	}
+}
+
+// k2Scenario: two queries opened from one filter with different targets before iterating the first.
+func k2Scenario(h *H, rng *rand.Rand, n int) {
+	wa, _ := newWorlds(rng)
+	variant := 0
+	if n >= 1 {
+		variant = 1
+	}
+	params := paramTypes(n, variant)
+	var ids [nTypes]ecs.ID
+	for t := 0; t < nTypes; t++ {
+		ids[t] = ecs.TypeID(wa, typeTable[t].rt)
+	}
+	t1 := wa.NewEntity()
+	t2 := wa.NewEntity()
+	comp := append([]int{}, params...)
+	if !contains(comp, tRel) {
+		comp = append(comp, tRel)
+	}
+	cids := make([]ecs.ID, len(comp))
+	for i, t := range comp {
+		cids[i] = ids[t]
+	}
+	var want1, want2 []ecs.Entity
+	for i := 0; i < 2; i++ {
+		want1 = append(want1, ecs.NewBuilder(wa, cids...).WithRelation(ids[tRel]).New(t1))
+	}
+	for i := 0; i < 3; i++ {
+		want2 = append(want2, ecs.NewBuilder(wa, cids...).WithRelation(ids[tRel]).New(t2))
+	}
+	var got1, got2 []ecs.Entity
+	r := try(func() {
+		fa := makeFiltAd(n, variant, wa)
+		if n == 0 {
+			fa.With(tSingle[tRel]())
+		}
+		fa.WithRelation(tSingle[tRel]())
+		q1 := fa.Query(wa, t1)
+		q2 := fa.Query(wa, t2)
+		for q1.Q.Next() {
+			got1 = append(got1, q1.Q.Entity())
+		}
+		for q2.Q.Next() {
+			got2 = append(got2, q2.Q.Entity())
+		}
+	})
+	if !h.named(!r.panicked, "K2 shared-relation-filter", "scenario panicked: %s", r.msg) {
+		return
+	}
+	h.named(entsStr(got1) == entsStr(want1), "K2 shared-relation-filter",
+		"q1 := Query(w, target1), then q2 := Query(w, target2), then iterating q1 yields %s, want the children of target1 %s", entsStr(got1), entsStr(want1))
+	h.named(entsStr(got2) == entsStr(want2), "K2 shared-relation-filter",
+		"q2 yields %s, want the children of target2 %s", entsStr(got2), entsStr(want2))
+}
+
+// k4Scenario: Query(w, target) on a filter without WithRelation is documented to panic.
+func k4Scenario(h *H, rng *rand.Rand, n int) {
+	wa, _ := newWorlds(rng)
+	params := paramTypes(n, 0)
+	var ids []ecs.ID
+	for _, t := range params {
+		ids = append(ids, ecs.TypeID(wa, typeTable[t].rt))
+	}
+	t1 := wa.NewEntity()
+	wa.NewEntity(ids...)
+	var q *qAd
+	r := try(func() {
+		fa := makeFiltAd(n, 0, wa)
+		q = fa.Query(wa, t1)
+	})
+	if q != nil {
+		closeQ(q.Q)
+	}
+	h.named(r.panicked, "K4 query-target-without-relation",
+		"Query(w, target) on a filter on which WithRelation was never called did not panic, although FilterN.Query documents a panic for that case")
+	// same for Filter()
+	r = try(func() {
+		fa := makeFiltAd(n, 0, wa)
+		fa.Filter(wa, t1)
+	})
+	h.named(r.panicked, "K4 query-target-without-relation",
+		"Filter(w, target) on a filter on which WithRelation was never called did not panic, although FilterN.Filter documents a panic for that case")
+}
+
+// ---------------------------------------------------------------------------
+// (from sec_misc.go)
+
+// singleSection: generic.Map[T] against World.Get/Has/Set and Relations/Batch calls.
+func singleSection(h *H, rng *rand.Rand, n int) {
+	t := rng.Intn(nTypes)
+	if rng.Intn(2) == 0 {
+		t = tRel + rng.Intn(2)
+	}
+	p := newPair(h, rng, []int{t})
+	if p.stop() {
+		return
+	}
+	h.ctx = "single type=" + typeTable[t].name
+	wa, wb := p.wa, p.wb
+	id := p.ids[t]
+	var sa *singleAd
+	rc := try(func() { sa = singleMakers[t](wa) })
+	if !h.ok(!rc.panicked, "NewMap", "constructor panicked: %s", rc.msg) {
+		return
+	}
+	ops := []string{"ID", "Get", "GetUnchecked", "Has", "HasUnchecked", "Set", "GetRelation", "GetRelationUnchecked",
+		"SetRelation", "SetRelationBatch", "SetRelationBatchQ"}
+	rng.Shuffle(len(ops), func(i, j int) { ops[i], ops[j] = ops[j], ops[i] })
+	for i := 0; i < 5; i++ {
+		ops = append(ops, ops[rng.Intn(11)])
+	}
+	for _, op := range ops {
+		p.background(rng.Intn(2))
+		if p.stop() {
+			return
+		}
+		m := "Map." + op
+		e := p.pickEntityArg()
+		if rng.Intn(3) > 0 {
+			if x, ok := p.pickWhere(func(r *rec) bool { return r.has[t] }); ok {
+				e = x
+			}
+		}
+		if rng.Intn(30) == 0 {
+			e = ecs.Entity{}
+		}
+		mutating := false
+		switch op {
+		case "ID":
+			var ia ecs.ID
+			ra := try(func() { ia = sa.ID() })
+			if h.ok(!ra.panicked, m, "panicked: %s", ra.msg) {
+				h.ok(ia == id, m, "differs from ecs.TypeID")
+			}
+		case "Get", "GetUnchecked":
+			var pa, pb, exp unsafe.Pointer
+			ra := try(func() {
+				if op == "Get" {
+					pa = sa.Get(e)
+				} else {
+					pa = sa.GetUnchecked(e)
+				}
+			})
+			rb := try(func() {
+				if op == "Get" {
+					pb, exp = wb.Get(e, id), wa.Get(e, id)
+				} else {
+					pb, exp = wb.GetUnchecked(e, id), wa.GetUnchecked(e, id)
+				}
+			})
+			if h.samePanic(m, ra, rb) {
+				h.ok(pa == exp, m, "pointer differs from World.%s", op)
+				if h.ok((pa == nil) == (pb == nil), m, "generic nil=%v, id-based nil=%v", pa == nil, pb == nil) && pb != nil {
+					h.ok(*(*int64)(pa) == *(*int64)(pb), m, "value %d, id-based %d", *(*int64)(pa), *(*int64)(pb))
+				}
+			}
+		case "Has", "HasUnchecked":
+			var ba, bb bool
+			ra := try(func() {
+				if op == "Has" {
+					ba = sa.Has(e)
+				} else {
+					ba = sa.HasUnchecked(e)
+				}
+			})
+			rb := try(func() {
+				if op == "Has" {
+					bb = wb.Has(e, id)
+				} else {
+					bb = wb.HasUnchecked(e, id)
+				}
+			})
+			if h.samePanic(m, ra, rb) {
+				h.ok(ba == bb, m, "generic %v, id-based %v", ba, bb)
+			}
+		case "Set":
+			mutating = true
+			v := randVals(rng, []int{t})[0]
+			var pa unsafe.Pointer
+			ra := try(func() { pa = sa.Set(e, v) })
+			rb := try(func() { wb.Set(e, id, typeTable[t].mk(v)) })
+			if h.samePanic(m, ra, rb) {
+				h.ok(pa != nil && pa == wa.Get(e, id), m, "returned pointer differs from World.Get")
+				h.ok(pa != nil && *(*int64)(pa) == v, m, "value not stored")
+			}
+		case "GetRelation", "GetRelationUnchecked":
+			var ta, tb ecs.Entity
+			ra := try(func() {
+				if op == "GetRelation" {
+					ta = sa.GetRelation(e)
+				} else {
+					ta = sa.GetRelationUnchecked(e)
+				}
+			})
+			rb := try(func() {
+				if op == "GetRelation" {
+					tb = wb.Relations().Get(e, id)
+				} else {
+					tb = wb.Relations().GetUnchecked(e, id)
+				}
+			})
+			if h.samePanic(m, ra, rb) {
+				h.ok(ta == tb, m, "generic %s, id-based %s", entStr(ta), entStr(tb))
+			}
+		case "SetRelation":
+			mutating = true
+			tg := p.pickTarget()
+			ra := try(func() { sa.SetRelation(e, tg) })
+			rb := try(func() { wb.Relations().Set(e, id, tg) })
+			h.samePanic(m, ra, rb)
+		case "SetRelationBatch", "SetRelationBatchQ":
+			mutating = true
+			tg := p.pickTarget()
+			incl := []int{t}
+			var excl []int
+			if rng.Intn(3) == 0 {
+				excl = []int{tX0 + rng.Intn(3)}
+			}
+			if rng.Intn(10) == 0 {
+				incl = nil
+			}
+			fa, fb, cleanup := p.mkFilter(rng.Intn(4), incl, excl, p.pickUsedTarget())
+			if op == "SetRelationBatch" {
+				var ca, cb int
+				ra := try(func() { ca = sa.SetRelationBatch(fa, tg) })
+				rb := try(func() { cb = wb.Batch().SetRelation(fb, id, tg) })
+				if h.samePanic(m, ra, rb) {
+					h.ok(ca == cb, m, "count differs: generic %d, id-based %d", ca, cb)
+				}
+			} else {
+				var qa *qAd
+				var qb ecs.Query
+				ra := try(func() { qa = sa.SetRelationBatchQ(fa, tg) })
+				rb := try(func() { qb = wb.Batch().SetRelationQ(fb, id, tg) })
+				p.finishQueries(m, ra, rb, qa, &qb, []ecs.ID{id}, []int{t}, true, id)
+			}
+			cleanup()
+		}
+		if mutating {
+			p.sync(m)
+		}
+		if p.stop() {
+			return
+		}
+	}
+}
+
+// exchangeSection: generic.Exchange against World.Add/Remove/Exchange, Builder, Batch and Relations.
+func exchangeSection(h *H, rng *rand.Rand) {
+	// model
+	var add, rem []int
+	hasRel := false
+	relT := 0
+
+	nonRel := []int{0, 1, 2, 3, 4, 5, tX0, tX0 + 1, tX0 + 2}
+	pickCfg := func() (a, r []int, rel int) {
+		perm := rng.Perm(len(nonRel))
+		na, nr := 1+rng.Intn(3), 1+rng.Intn(3)
+		if rng.Intn(8) == 0 {
+			na = 0
+		}
+		if rng.Intn(8) == 0 {
+			nr = 0
+		}
+		for i := 0; i < na; i++ {
+			a = append(a, nonRel[perm[i]])
+		}
+		for i := 0; i < nr; i++ {
+			r = append(r, nonRel[perm[na+i]])
+		}
+		rel = -1
+		switch x := rng.Intn(10); {
+		case x < 3: // relation among the added components
+			rel = tRel
+			a = append(a, tRel)
+		case x < 5: // relation expected on the entity already
+			rel = tRel
+		case x < 6: // relation removed
+			rel = tRel
+			r = append(r, tRel)
+		case x < 7:
+			rel = tRel2
+		case x < 8:
+			rel = tX0 // not a relation
+		}
+		if rng.Intn(15) == 0 && len(a) > 0 {
+			r = append(r, a[0]) // add and remove the same component: panics on both sides
+		}
+		return
+	}
+	a0, r0, rel0 := pickCfg()
+	focus := append([]int{}, r0...)
+	if rel0 == tRel && !contains(a0, tRel) && !contains(focus, tRel) {
+		focus = append(focus, tRel)
+	}
+	p := newPair(h, rng, focus)
+	if p.stop() {
+		return
+	}
+	wa, wb := p.wa, p.wb
+	ex := generic.NewExchange(wa)
+
+	configure := func(a, r []int, rel int) {
+		calls := []string{"Adds", "Removes"}
+		if rel >= 0 {
+			calls = append(calls, "WithRelation")
+		}
+		if rng.Intn(4) == 0 {
+			calls = append(calls, "Adds") // a second Adds call must keep the relation on the builder
+		}
+		rng.Shuffle(len(calls), func(i, j int) { calls[i], calls[j] = calls[j], calls[i] })
+		for _, c := range calls {
+			var rc res
+			switch c {
+			case "Adds":
+				if len(a) == 0 && rng.Intn(2) == 0 && len(add) == 0 {
+					continue
+				}
+				rc = try(func() {
+					if ex.Adds(compsOf(a)...) != ex {
+						panic("harness: Adds did not return its receiver")
+					}
+				})
+				add = a
+			case "Removes":
+				if len(r) == 0 && rng.Intn(2) == 0 && len(rem) == 0 {
+					continue
+				}
+				rc = try(func() {
+					if ex.Removes(compsOf(r)...) != ex {
+						panic("harness: Removes did not return its receiver")
+					}
+				})
+				rem = r
+			case "WithRelation":
+				rc = try(func() {
+					if ex.WithRelation(tSingle[rel]()) != ex {
+						panic("harness: WithRelation did not return its receiver")
+					}
+				})
+				hasRel, relT = true, rel
+			}
+			h.ok(!rc.panicked, "Exchange."+c, "panicked: %s", rc.msg)
+		}
+	}
+	configure(a0, r0, rel0)
+
+	ops := []string{"NewEntity", "Add", "Remove", "Exchange", "ExchangeBatch"}
+	for round := 0; round < 2; round++ {
+		h.ctx = fmt.Sprintf("exchange adds=[%s] removes=[%s] rel=%v/%s", namesOf(add), namesOf(rem), hasRel, typeTable[relT].name)
+		seq := append([]string{}, ops...)
+		rng.Shuffle(len(seq), func(i, j int) { seq[i], seq[j] = seq[j], seq[i] })
+		for i := 0; i < 3; i++ {
+			seq = append(seq, ops[rng.Intn(len(ops))])
+		}
+		for _, op := range seq {
+			p.background(rng.Intn(3))
+			if p.stop() {
+				return
+			}
+			m := "Exchange." + op
+			useful := hasRel
+			if op == "NewEntity" {
+				useful = hasRel && contains(add, relT)
+			} else if op == "Remove" {
+				useful = hasRel && !contains(rem, relT)
+			}
+			tg := p.optTarget(hasRel, useful)
+			h.tag = ""
+			if len(tg) > 0 {
+				h.tag = "+target"
+			}
+			rid := p.ids[relT]
+			addIDs := func() []ecs.ID { return p.idsOf(add) }
+			remIDs := func() []ecs.ID { return p.idsOf(rem) }
+			needRel := func() {
+				if len(tg) > 0 && !hasRel {
+					panic(modelPanic("can't set target entity: Exchange has no relation"))
+				}
+			}
+			relOK := func(r *rec) bool {
+				if contains(add, tRel) && (r.has[tRel2] || (r.has[tRel] && !contains(rem, tRel))) {
+					return false
+				}
+				if len(tg) > 0 && hasRel && !contains(add, relT) {
+					return r.has[relT] && !contains(rem, relT)
+				}
+				return true
+			}
+			e := p.pickEntityArg()
+			var pred func(r *rec) bool
+			switch op {
+			case "Add":
+				pred = func(r *rec) bool { return hasNone(r, add) && relOK(r) }
+			case "Remove":
+				pred = func(r *rec) bool { return hasAll(r, rem) && relOK(r) }
+			case "Exchange":
+				pred = func(r *rec) bool { return hasNone(r, add) && hasAll(r, rem) && relOK(r) }
+			}
+			if pred != nil && rng.Intn(5) > 0 {
+				var comp []int
+				if op != "Add" {
+					comp = append(comp, rem...)
+				}
+				if len(tg) > 0 && hasRel && typeTable[relT].isRel && !contains(add, relT) && !contains(comp, relT) && !contains(comp, tRel) && !contains(comp, tRel2) {
+					comp = append(comp, relT)
+				}
+				if len(comp) == 0 {
+					for _, t := range []int{6, 7, 8} {
+						if !contains(add, t) {
+							comp = append(comp, t)
+						}
+					}
+				}
+				e = p.pickOrCreate(pred, comp)
+			}
+			switch op {
+			case "NewEntity":
+				var ea, eb ecs.Entity
+				ra := try(func() { ea = ex.NewEntity(tg...) })
+				rb := try(func() {
+					needRel()
+					if len(tg) == 0 {
+						eb = wb.NewEntity(addIDs()...)
+					} else {
+						eb = ecs.NewBuilder(wb, addIDs()...).WithRelation(rid).New(tg[0])
+					}
+				})
+				if h.samePanic(m, ra, rb) {
+					h.ok(ea == eb, m, "entity differs: generic %s, id-based %s", entStr(ea), entStr(eb))
+				}
+			case "Add":
+				ra := try(func() { ex.Add(e, tg...) })
+				rb := try(func() {
+					needRel()
+					if len(tg) == 0 {
+						wb.Add(e, addIDs()...)
+					} else {
+						wb.Relations().Exchange(e, addIDs(), nil, rid, tg[0])
+					}
+				})
+				h.samePanic(m, ra, rb)
+			case "Remove":
+				ra := try(func() { ex.Remove(e, tg...) })
+				rb := try(func() {
+					needRel()
+					if len(tg) == 0 {
+						wb.Remove(e, remIDs()...)
+					} else {
+						wb.Relations().Exchange(e, nil, remIDs(), rid, tg[0])
+					}
+				})
+				h.samePanic(m, ra, rb)
+			case "Exchange":
+				ra := try(func() { ex.Exchange(e, tg...) })
+				rb := try(func() {
+					needRel()
+					if len(tg) == 0 {
+						wb.Exchange(e, addIDs(), remIDs())
+					} else {
+						wb.Relations().Exchange(e, addIDs(), remIDs(), rid, tg[0])
+					}
+				})
+				h.samePanic(m, ra, rb)
+			case "ExchangeBatch":
+				incl := append([]int{}, rem...)
+				excl := append([]int{}, add...)
+				if contains(add, tRel) {
+					excl = append(excl, tRel2)
+					if !contains(rem, tRel) {
+						excl = append(excl, tRel)
+					}
+				}
+				if len(tg) > 0 && hasRel && !contains(add, relT) && !contains(incl, relT) {
+					incl = append(incl, relT)
+				}
+				if rng.Intn(12) == 0 {
+					incl, excl = nil, nil
+				}
+				fa, fb, cleanup := p.mkFilter(rng.Intn(4), incl, excl, p.pickUsedTarget())
+				var ca, cb int
+				ra := try(func() { ca = ex.ExchangeBatch(fa, tg...) })
+				rb := try(func() {
+					needRel()
+					if len(tg) == 0 {
+						cb = wb.Batch().Exchange(fb, addIDs(), remIDs())
+					} else {
+						cb = wb.Relations().ExchangeBatch(fb, addIDs(), remIDs(), rid, tg[0])
+					}
+				})
+				if h.samePanic(m, ra, rb) {
+					h.ok(ca == cb, m, "count differs: generic %d, id-based %d", ca, cb)
+				}
+				cleanup()
+			}
+			p.sync(m)
+			if p.stop() {
+				return
+			}
+		}
+		// reconfigure the same Exchange object
+		a, r, rel := pickCfg()
+		if rel < 0 && hasRel {
+			rel = relT // a relation cannot be unset
+		}
+		p.focus = append([]int{}, r...)
+		if rel == tRel && !contains(a, tRel) && !contains(p.focus, tRel) {
+			p.focus = append(p.focus, tRel)
+		}
+		configure(a, r, rel)
+	}
+}
+
+// ifacePtr extracts the pointer stored in an interface value.
+func ifacePtr(x interface{}) unsafe.Pointer {
+	if x == nil {
+		return nil
+	}
+	return reflect.ValueOf(x).UnsafePointer()
+}
+
+// resourceSection: generic.Resource[T] against World.Resources().
+func resourceSection(h *H, rng *rand.Rand) {
+	wa, wb := newWorlds(rng)
+	k := 2 + rng.Intn(3)
+	ts := rng.Perm(nTypes)[:k]
+	ads := make([]*resAd, k)
+	idb := make([]ecs.ResID, k)
+	last := make([]unsafe.Pointer, k) // pointer handed to generic Add
+	lastB := make([]unsafe.Pointer, k)
+	for i, t := range ts {
+		rc := try(func() { ads[i] = resourceMakers[t](wa) })
+		if !h.ok(!rc.panicked, "NewResource", "constructor panicked: %s", rc.msg) {
+			return
+		}
+		idb[i] = ecs.ResourceTypeID(wb, typeTable[t].rt)
+	}
+	for step := 0; step < 14; step++ {
+		i := rng.Intn(k)
+		t := ts[i]
+		h.ctx = "resource type=" + typeTable[t].name
+		ops := []string{"ID", "Add", "Remove", "Get", "Has", "Get"}
+		op := ops[rng.Intn(len(ops))]
+		m := "Resource." + op
+		switch op {
+		case "ID":
+			var ia ecs.ResID
+			ra := try(func() { ia = ads[i].ID() })
+			if h.ok(!ra.panicked, m, "panicked: %s", ra.msg) {
+				h.ok(ia == idb[i], m, "differs from ecs.ResourceTypeID with the same registration order")
+			}
+		case "Add":
+			v := randVals(rng, []int{t})[0]
+			var pa unsafe.Pointer
+			ra := try(func() { pa = ads[i].Add(v) })
+			var pb interface{}
+			rb := try(func() {
+				pb = typeTable[t].mk(v)
+				wb.Resources().Add(idb[i], pb)
+			})
+			if h.samePanic(m, ra, rb) {
+				last[i], lastB[i] = pa, ifacePtr(pb)
+			}
+		case "Remove":
+			ra := try(func() { ads[i].Remove() })
+			rb := try(func() { wb.Resources().Remove(idb[i]) })
+			if h.samePanic(m, ra, rb) {
+				last[i], lastB[i] = nil, nil
+			}
+		case "Get":
+			var pa, pb unsafe.Pointer
+			ra := try(func() { pa = ads[i].Get() })
+			rb := try(func() { pb = ifacePtr(wb.Resources().Get(idb[i])) })
+			if h.samePanic(m, ra, rb) {
+				h.ok(pa == last[i], m, "generic Get returned %v, want the pointer that was added (%v; nil if absent)", pa, last[i])
+				h.ok(pb == lastB[i], m, "Resources.Get returned a different pointer than was added")
+				h.ok(pa == ifacePtr(wa.Resources().Get(idb[i])), m, "generic Get differs from Resources().Get on the same world")
+				if pa != nil && pb != nil {
+					h.ok(*(*int64)(pa) == *(*int64)(pb), m, "value differs")
+				}
+			}
+		case "Has":
+			var ba, bb bool
+			ra := try(func() { ba = ads[i].Has() })
+			rb := try(func() { bb = wb.Resources().Has(idb[i]) })
+			if h.samePanic(m, ra, rb) {
+				h.ok(ba == bb, m, "generic %v, id-based %v", ba, bb)
+			}
+		}
+		if h.broken {
+			return
+		}
+	}
+}
+
+// registryOf lists the registered component types in ID order.
+func registryOf(w *ecs.World) string {
+	s := ""
+	for _, id := range ecs.ComponentIDs(w) {
+		info, _ := ecs.ComponentInfo(w, id)
+		s += fmt.Sprintf("%s(rel=%v) ", info.Type.Name(), info.IsRelation)
+	}
+	return s
+}
+
+// registrationSection: constructors register component types lazily in the order of the type
+// parameters (then the relation); generic.T/T1..T12 return the reflect types in order.
+func registrationSection(h *H, rng *rand.Rand, n int) {
+	// generic.TN
+	var tl []generic.Comp
+	rc := try(func() { tl = tList(n) })
+	if h.ok(!rc.panicked && len(tl) == n, fmt.Sprintf("T%d", n), "returned %d types (panic=%v)", len(tl), rc.panicked) {
+		for k := 0; k < n; k++ {
+			h.ok(tl[k] == generic.Comp(typeTable[k].rt), fmt.Sprintf("T%d", n), "position %d is %v, want %s", k, tl[k], typeTable[k].name)
+		}
+	}
+	for t := 0; t < nTypes; t++ {
+		h.ok(tSingle[t]() == generic.Comp(typeTable[t].rt), "T", "generic.T[%s]() is not reflect.TypeOf(%s{})", typeTable[t].name, typeTable[t].name)
+	}
+	if n == 0 {
+		return
+	}
+	variant := rng.Intn(2)
+	params := paramTypes(n, variant)
+	wa, wb := newWorlds(rng)
+	rel := []int{-1, tRel2, tRel, tX0}[rng.Intn(4)]
+	m := fmt.Sprintf("NewMap%d", n)
+	ra := try(func() {
+		if rel >= 0 {
+			makeMapAd(n, variant, wa, tSingle[rel]())
+		} else {
+			makeMapAd(n, variant, wa)
+		}
+	})
+	for _, t := range params {
+		ecs.TypeID(wb, typeTable[t].rt)
+	}
+	if rel >= 0 {
+		ecs.TypeID(wb, typeTable[rel].rt)
+	}
+	if h.ok(!ra.panicked, m, "constructor panicked: %s", ra.msg) {
+		ga, gb := registryOf(wa), registryOf(wb)
+		h.ok(ga == gb, m, "component registration differs: generic [%s], id-based [%s]", ga, gb)
+	}
+	// Map[T] and filters on fresh worlds
+	wa, wb = newWorlds(rng)
+	t := rng.Intn(nTypes)
+	ra = try(func() { singleMakers[t](wa) })
+	ecs.TypeID(wb, typeTable[t].rt)
+	if h.ok(!ra.panicked, "NewMap", "constructor panicked: %s", ra.msg) {
+		ga, gb := registryOf(wa), registryOf(wb)
+		h.ok(ga == gb, "NewMap", "component registration differs: generic [%s], id-based [%s]", ga, gb)
 	}
 }
